@@ -18,7 +18,8 @@ Inductive fragref := FProbe | FReq (mid : nat) (slot : N).
    ps_written logs every fragment written to the backend socket together with the bytes written for
    it, ps_taken counts consumed replies *)
 Record pmsg := { pm_client : nat; pm_sm : smsg; pm_reqs : list (N * bytes); pm_seq : nat;
-                 pm_moved : list N }.   (* ghost: slots of fragments that have been redirected *)
+                 pm_moved : list N;                    (* ghost: slots whose fragment a node redirected *)
+                 pm_route : list (N * option bytes) }. (* ghost: per slot, the owner in the slot table when the request was routed *)   (* ghost: slots of fragments that have been redirected *)
 Record pclient := { pc_open : bool; pc_left : bytes; pc_queue : list nat; pc_got : bytes;
                      pc_sent : nat; pc_hist : list (nat * bytes);
                      pc_closing : bool }.   (* QUIT received: close once the queue has been flushed *)
@@ -120,7 +121,7 @@ Definition flush_if_open (st : pst) (c : nat) : pst :=
 (* complete a request with a proxy error (finish_error of the merge model) *)
 Definition fail_msg (st : pst) (mid : nat) (e : bytes) : pst :=
   match lookup mid (msgs st) with
-  | Some m => set_msg st mid {| pm_client := pm_client m; pm_sm := finish_error (pm_sm m) e; pm_reqs := pm_reqs m; pm_seq := pm_seq m; pm_moved := pm_moved m |}
+  | Some m => set_msg st mid {| pm_client := pm_client m; pm_sm := finish_error (pm_sm m) e; pm_reqs := pm_reqs m; pm_seq := pm_seq m; pm_moved := pm_moved m; pm_route := pm_route m |}
   | None => st
   end.
 
@@ -269,7 +270,7 @@ Definition local_reply (st : pst) (c : nat) (m : cmsg) (out : bytes) (close : bo
             let mid := next_mid st in
             let sm := {| sm_type := cm_type m; sm_keys := cm_keys m; sm_frags := []; sm_done_number := 0; sm_del_num := 0;
                          sm_done := true; sm_rsp := out; sm_error := [] |} in
-            let st' := bump_mid (set_msg st mid {| pm_client := c; pm_sm := sm; pm_reqs := []; pm_seq := pc_sent cl; pm_moved := [] |}) in
+            let st' := bump_mid (set_msg st mid {| pm_client := c; pm_sm := sm; pm_reqs := []; pm_seq := pc_sent cl; pm_moved := []; pm_route := [] |}) in
             set_client st' c {| pc_open := pc_open cl; pc_left := pc_left cl; pc_queue := pc_queue cl ++ [mid]; pc_got := pc_got cl;
                                 pc_sent := S (pc_sent cl); pc_hist := pc_hist cl; pc_closing := pc_closing cl |}
         end in
@@ -318,7 +319,8 @@ Definition on_request (st : pst) (c : nat) (m : cmsg) : pst :=
         let mid := next_mid st1 in
         let seqno := match lookup c (clients st1) with Some cl => pc_sent cl | None => O end in
         let pm := {| pm_client := c; pm_sm := smsg_of m (groups_for m);
-                     pm_reqs := map (fun sf => (fst sf, cf_req (snd sf))) (cm_body m); pm_seq := seqno; pm_moved := [] |} in
+                     pm_reqs := map (fun sf => (fst sf, cf_req (snd sf))) (cm_body m); pm_seq := seqno; pm_moved := [];
+                     pm_route := map (fun sf => (fst sf, slot_master st (fst sf))) (by_slot (cm_body m)) |} in
         let st2 := bump_mid (set_msg st1 mid pm) in
         let st3 := fold_left (fun s t => enqueue_out s (snd t) (FReq mid (fst t))) targets st2 in
         match lookup c (clients st3) with
@@ -457,7 +459,7 @@ Definition parse_moved (ty : N) (rsp : bytes) : bytes :=
 Definition mark_moved (st : pst) (mid : nat) (slot : N) : pst :=
   match lookup mid (msgs st) with
   | Some m => set_msg st mid {| pm_client := pm_client m; pm_sm := pm_sm m; pm_reqs := pm_reqs m; pm_seq := pm_seq m;
-                                pm_moved := slot :: pm_moved m |}
+                                pm_moved := slot :: pm_moved m; pm_route := pm_route m |}
   | None => st
   end.
 
@@ -515,7 +517,7 @@ Definition on_reply (st : pst) (s : nat) (ty : N) (rsp : bytes) : result pst :=
                     | Fine (Some sm') =>
                         if is_auth_failure ty then RShutdown
                         else
-                          let st1 := set_msg st0 mid {| pm_client := pm_client m; pm_sm := sm'; pm_reqs := pm_reqs m; pm_seq := pm_seq m; pm_moved := pm_moved m |} in
+                          let st1 := set_msg st0 mid {| pm_client := pm_client m; pm_sm := sm'; pm_reqs := pm_reqs m; pm_seq := pm_seq m; pm_moved := pm_moved m; pm_route := pm_route m |} in
                           match lookup (pm_client m) (clients st1) with
                           | None => ROk st1
                           | Some cl =>
@@ -633,12 +635,41 @@ Inductive event :=
 | EClientClose (c : nat)
 | EServerClose (s : nat)
 | ETimeout
-| EProbe (s : nat).
+| EProbe (addr : bytes)        (* the ticker's topology probe: a connection of the pool of addr *)
+| ETopology (nodes : list (bytes * bool)) (newslots : list (Z * Z * bytes)).
+                               (* the ticker applies an adopted topology: (address, is replica) of every
+                                  usable node, and the slot ranges of the masters *)
 
 Definition order_fn (l : list (nat * list N)) (s : nat) : list N :=
   match lookup s l with Some o => o | None => [] end.
 
 Definition task_fuel (st : pst) : nat := S (length (tasks st)) * 4 + 64.
+
+(* eventloop.ticker with serverChanged: pools of nodes that disappeared are closed and forgotten, pools
+   whose role changed release their connections (Pool.SetIsSlave), the slot table is rebuilt.  Closing a
+   connection is a queued task (conn.Close -> Trigger).  Pools for nodes not seen before are created
+   by the production code with the real dialer; the histories of the harness never add nodes. *)
+Definition node_role (nodes : list (bytes * bool)) (a : bytes) : option bool :=
+  match find (fun n => beqb (fst n) a) nodes with Some n => Some (snd n) | None => None end.
+
+Definition topology_closing (nodes : list (bytes * bool)) (p : ppool) : list nat :=
+  match node_role nodes (pp_addr p) with
+  | None => pp_conns p
+  | Some r => if Bool.eqb r (pp_slave p) then [] else pp_conns p
+  end.
+
+Definition topology_pool (nodes : list (bytes * bool)) (p : ppool) : list ppool :=
+  match node_role nodes (pp_addr p) with
+  | None => []
+  | Some r => if Bool.eqb r (pp_slave p) then [p]
+              else [{| pp_addr := pp_addr p; pp_slave := r; pp_conns := []; pp_closed := pp_closed p; pp_dialable := pp_dialable p |}]
+  end.
+
+Definition apply_topology (st : pst) (nodes : list (bytes * bool)) (newslots : list (Z * Z * bytes)) : pst :=
+  {| clients := clients st; servers := servers st; msgs := msgs st;
+     pools := concat (map (topology_pool nodes) (pools st)); slots := newslots;
+     tasks := tasks st ++ map TClose (concat (map (topology_closing nodes) (pools st)));
+     inflight := inflight st; next_mid := next_mid st; next_sid := next_sid st; cfg := cfg st |}.
 
 Definition step (st : pst) (e : event) : result pst :=
   match e with
@@ -653,7 +684,16 @@ Definition step (st : pst) (e : event) : result pst :=
   | EClientClose c => ROk (close_client st c)
   | EServerClose s => ROk (close_server st s)
   | ETimeout => ROk (timeout_scan st)
-  | EProbe s => ROk (set_tasks st (tasks st ++ [TProbe s]))
+  | EProbe addr =>
+      (* OnTicker: pool.Get() of the chosen node (may dial), then WriteClusterNodes triggers a task *)
+      match find_pool st addr with
+      | Some p => match pool_get st p with
+                  | (st1, Some s) => ROk (set_tasks st1 (tasks st1 ++ [TProbe s]))
+                  | (st1, None) => ROk st1
+                  end
+      | None => ROk st
+      end
+  | ETopology nodes newslots => ROk (apply_topology st nodes newslots)
   end.
 
 Fixpoint run (st : pst) (evs : list event) : result pst :=
